@@ -148,6 +148,22 @@ def build(ens, table, seed, calc_kind, restart_file):
             d.default_label = -1
             mc.add_move(e, name="exch")
             mc.add_move(d, name="disp")
+        elif table == "exch_default_label_zero":
+            # inserted particles join group 0 (a falsy but perfectly good label)
+            e = ExchangeMove(lab.copy(), op, bias_towards_insert=0.7)
+            d = DisplacementMove(lab.copy(), Ball(0.3))
+            e.default_label = 0
+            d.default_label = 0
+            mc.max_cycles = 5
+            mc.add_move(e, name="exch")
+            mc.add_move(d, name="disp")
+        elif table == "shared_exch_in_composite":
+            # the same ExchangeMove object stand-alone and as a member of a composite exchange move
+            single = ExchangeMove(lab.copy(), op)
+            other = ExchangeMove(lab.copy(), op)
+            mc.max_cycles = 6
+            mc.add_move(single, name="exchange_one")
+            mc.add_move(single + other, criteria=GrandCanonicalCriteria(), name="exchange_two")
         else:
             e = ExchangeMove(lab.copy(), op)
             mc.add_move(e, name="exch")
@@ -240,7 +256,7 @@ def run(tier: str) -> int:
     finally:
         shutil.rmtree(tmp, ignore_errors=True)
     nrestart = 0
-    seeds = [rep.seed % 997 + 3] if tier == "quick" else [rep.seed % 997 + 3, rep.seed % 997 + 4, 2**40 + 17]
+    seeds = [rep.seed % 997 + 3, rep.seed % 997 + 11, rep.seed % 997 + 29] if tier == "quick" else [rep.seed % 997 + 3, rep.seed % 997 + 4, 2**40 + 17]
     for t in sorted(tuples, key=lambda x: (x["ens"], x["table"])):
         ens, table, n = t["ens"], t["table"], t["n"]
         for seed in seeds:
